@@ -655,6 +655,58 @@ def gnuext_part(chk, tools, n):
                     'c2m and gcc lay out a declaration with zero-size members (GNU C) differently: %s  c2m[%s] gcc[%s]' % (txt, rr[0]['c2m'], rr[0]['gcc']))
 
 
+# A c2m callee loads the pieces of an aggregate it returns in registers straight from the object, with accesses of up
+# to 7 bytes beyond it (theorem ret_pieces_within is tight): 3 bytes as I32, 5..7 and the tail of 9..15 as 8 bytes.  Only
+# observable when the object ends a mapping.  Genuine defect of /repo (fixes/C08-10.patch).  While the tree has it, the
+# probe is a KNOWN finding if KNOWN_FINDINGS.txt lists the signature, else a logged note; on a repaired tree every
+# aggregate of the sized stream must survive at the end of a page, loads and stores.
+PAGEEND_SIG = 'return:reads-beyond-object'
+PAGEEND_WITNESS = 's{ n a3 bchar }'
+
+
+def pageend_run(tools, decls, mode):
+    src = tools.path('pageend.c')
+    open(src, 'w').write(G.pageend_tu(list(enumerate(decls))))
+    rc, out, err = tools.run_c2m(src, mode)
+    st = {}
+    for l in out.split('\n'):
+        w = l.split()
+        if len(w) == 3 and w[0] == 'E':
+            st[int(w[1])] = w[2]
+    return rc, st, err
+
+
+def pageend_part(chk, tools, decls):
+    w = G.parse_text(PAGEEND_WITNESS)
+    chk.count('E ' + PAGEEND_WITNESS)
+    for mode in ('-ei', '-eg'):
+        rc, st, err = pageend_run(tools, [w], mode)
+        if st.get(0) != 'ok':
+            what = ('a c2m function returning by value a 3-byte struct that ends a mapping reads beyond it and is killed (%s: %s, rc %d); '
+                    'gcc reads 3 bytes' % (mode, st.get(0, 'no output'), rc))
+            chk.cov['return_reads_beyond_object'] = 'present on this tree (fixes/C08-10.patch): ' + what
+            if any(sig == PAGEEND_SIG for sig, _ in chk.known):
+                chk.finding(PAGEEND_SIG, dict(kind='pageend', decl=PAGEEND_WITNESS, mode=mode, rc=rc), what)
+            else:
+                chk.log('NOTE (not reported, fixes/C08-10.patch pending): ' + what)
+            return
+    for mode in ('-ei', '-eg'):
+        rc, st, err = pageend_run(tools, decls, mode)
+        for i, t in enumerate(decls):
+            chk.count('E ' + G.ty_text(t), nontrivial=True)
+        bad = [i for i in range(len(decls)) if st.get(i) != 'ok']
+        chk.dist('page_end_returns', 'ok', len(decls) - len(bad))
+        chk.dist('page_end_returns', 'BAD', len(bad))
+        if bad:
+            t = decls[bad[0]]
+            rc1, st1, _ = pageend_run(tools, [t], mode)
+            chk.finding('pageend:' + G.ty_text(t), dict(kind='pageend', decl=G.ty_text(t), mode=mode, rc=rc1, state=st1.get(0)),
+                        'an aggregate that ends a mapping is not returned / assigned from a call intact by c2m code (%s: %s, rc %d): %s'
+                        % (mode, st1.get(0, 'killed'), rc1, G.ty_text(t)))
+            return
+    chk.log('aggregates at the end of a page: %d returned and assigned from a call, all intact' % len(decls))
+
+
 def libc_part(chk, tools):
     """harness/c08_libc.c under c2m (-ei, -eg) and gcc: identical output lines"""
     src = os.path.join(vlib.VERIF, 'harness', 'c08_libc.c')
@@ -749,6 +801,8 @@ def run(chk):
                                 'the generator of aggregates of an exact size is wrong about ' + G.ty_text(t), no_input=True)
             classify_part(chk, tools, ds, 'sized aggregates %d (classification)' % b)
             passing_part(chk, tools, ds, 'sized aggregates %d' % b)
+            if b == 0:
+                pageend_part(chk, tools, ds)
         libc_part(chk, tools)
         gnuext_part(chk, tools, 150 if quick else 1500)
         if not quick:
@@ -821,6 +875,11 @@ def replay(chk, path):
             before = len(chk.violations)
             libc_part(chk, tools)
             return 1 if len(chk.violations) > before else 0
+        if rp.get('kind') == 'pageend':
+            t = G.parse_text(rp['decl'])
+            rc, st, err = pageend_run(tools, [t], rp.get('mode', '-ei'))
+            print('decl :', rp['decl'], ' mode', rp.get('mode'), ' rc', rc, ' state', st.get(0, 'killed'))
+            return 0 if st.get(0) == 'ok' else 1
         if rp.get('kind') == 'passing':
             t = G.parse_text(rp['decl'])
             pos = rp.get('index', 0)
